@@ -35,6 +35,9 @@ func main() {
 		os.Exit(2)
 	}
 	tier := report.Tier()
+	if tier != "thorough" {
+		ScenarioSeconds = 120 // quick tier: no scenario comes near this on a quiet machine
+	}
 	if os.Args[1] == "debug1" {
 		sc := qcScenarios()[0]
 		n := 0
